@@ -28,7 +28,7 @@ PROPS["C11"].update({
 NOT_APPLICABLE = {}
 
 # verif-guarded hook commits in /repo (add-only)
-HOOK_COMMITS = ["fd0e965", "d11cf72"]
+HOOK_COMMITS = ["fd0e965", "d11cf72", "46739fb"]
 
 PROPS["C09"] = {
     "modules": ["OxiaVerif.Props.C09", "OxiaVerif.Props.C09OnTree"],
@@ -89,4 +89,41 @@ PROPS["C13"] = {
     "level_note": "Trusted: Lean kernel; " + DBTRUST + "; harness + driver. Partial: C13_put_total_partial / C13_delete_total_partial (hypothesis: the touched key holds a storage entry); sequence puts and ranges over internal keys are the known findings D-5 / D-15.",
     "technique": "Lean 4 proof (totality by case analysis) + proved counterexamples + differential correspondence on the real kv.DB",
     "design_ref": "DESIGN.md section 6 C13",
+}
+
+PROPS["C15"] = {
+    "modules": ["OxiaVerif.Props.C15"],
+    "facts": ["secondaryGetChecksIndexName", "secondaryGetEndOfKeySpaceSafe"],
+    "trusted_base": [KERNEL, EXTRACT, CORR, DBTRUST, "Go regexp semantics of the index-key pattern, transcribed by hand (parseIdxKey)"],
+    "assumptions": ["exactness of the index content (entries = pairs declared by live records) is checked on the real code by the harness oracle after every write, not proved",
+                    "well-formed index declarations: index name without '/', secondary key non-empty and without \\x01; an empty secondary key is stored as an unparsable index key (found by reading: D-22, not exercised by the generator)"],
+    "rule": DBRULE + ", with 2-4 indexes whose names are order-adjacent (i, i0, i1, j), secondary keys at the extremes, records moved between indexes and re-declared, and all five comparison gets at and beyond both edges of every index; a dump precedes every index query. Oracle: stored index entries == pairs declared by the live records; a get returns an entry of the requested index, satisfying the comparison, with no closer entry; found iff some entry matches. Non-trivial = an index query that found a record.",
+    "level_text": "Machine-checked proof (Lean 4): for every store, key and comparison type, every record an index get returns comes from an index key of the requested index (given the two facts read from doSecondaryGet on every run; concrete counterexample without the check = defect D-21), and the primary key stored in an index key is recovered exactly (PathUnescape . PathEscape = id for every byte string). Index maintenance and all index reads are tied to server/secondary_indexes.go + db.go by differential runs with an independent exactness oracle.",
+    "level_note": "Trusted: Lean kernel; extractor rules on doSecondaryGet; hand transcription of the regexp, url.PathEscape and the iterator loop; " + DBTRUST + ". Partial: index exactness is oracle-checked, not proved.",
+    "technique": "Lean 4 proof (induction over the iterator loop; escape round trip) + regenerated facts + differential correspondence with exactness oracle",
+    "design_ref": "DESIGN.md section 6 C15",
+}
+PROPS["C16"] = {
+    "modules": ["OxiaVerif.Props.C16"],
+    "facts": ["overrideChannelInnerDefaultContinues"],
+    "trusted_base": [KERNEL, EXTRACT, CORR, DBTRUST, "Go channel semantics of a capacity-1 channel with non-blocking select; the mutex in WriteLast serialises writers"],
+    "assumptions": ["fair scheduling of the receiver goroutine (liveness is proved in safety form: the latest value is always the one visible)",
+                    "numeric order = key order for 20-digit decimals is covered by C11's order laws and correspondence, not by a theorem here"],
+    "rule": DBRULE + ", in sequence mode: several sequence puts per request on prefixes p, q, p/q, s, deltas 1..10, 0, 2^40, 2^64-1, 1-3 suffixes, mixed with plain puts and deletes of neighbouring keys (p-0abc, p-1, p--1, p-, p.). Oracle: generated key = prefix + one 20-digit suffix per delta, strictly greater than every existing sequence key of the prefix, never an existing key. Non-trivial = at least two generated keys or a multi-suffix key.",
+    "level_text": "Machine-checked proof (Lean 4): the generated key is exactly prefix + '-%020d' of (existing suffix or 0) + delta in uint64 for every delta list (closed form, induction over the delta list); a zero first delta is refused; for every interleaving of writer steps and receiver steps of the override channel the value of the last completed WriteLast is the one the subscriber has seen last or sees next (given the shape of WriteLast read from the source; counterexample if the inner default returned). Tied to db_sequences.go by differential runs.",
+    "level_note": "Trusted: Lean kernel; extractor rule on WriteLast; " + DBTRUST + "; Go channel semantics. Known findings on the current tree (strictly-greater / never-overwrites fail): D-17 uint64 wrap-around, D-29 foreign key under the prefix.",
+    "technique": "Lean 4 proof (closed form by induction; interleaving invariant of a pc machine) + regenerated fact + differential correspondence",
+    "design_ref": "DESIGN.md section 6 C16",
+}
+PROPS["C17"] = {
+    "modules": ["OxiaVerif.Props.C17"],
+    "facts": ["processWriteSingleBatchCommit"],
+    "trusted_base": [KERNEL, EXTRACT, CORR, DBTRUST],
+    "assumptions": ["delivery order/resumption across reconnects (readNotifications) relies on the order embedding of %016x offset keys: correspondence-checked, not proved",
+                    "retention-time trimming (wall clock) and the leader's dispatch goroutines are not modelled"],
+    "rule": DBRULE + ", with subscribers (re)connecting at every offset at the end of each program. Oracle: the expected batch of every committed request is recomputed in Go from request + response (created/modified with resulting version id, deleted, range-deleted, last operation per key wins, internal keys filtered); each read must return exactly the batches with offset >= start, ascending. Non-trivial = a read returning at least two batches, one non-empty.",
+    "level_text": "Machine-checked proof (Lean 4), for every sorted store and every request: a committed request with notifications enabled stores exactly one batch (its offset, its timestamp) under its own offset key in the same commit as the commit offset (sortedness of the store is preserved by every batch operation); a failed request stores nothing; internal keys never appear; one notification per key; a successful put is announced with its resulting version id as created/modified. Tied to db.go/notifications_tracker.go by differential runs including every stored batch.",
+    "level_note": "Trusted: Lean kernel; extractor rule (single commit); " + DBTRUST + ". Partial: ascending delivery and resumption are oracle-checked on the implementation.",
+    "technique": "Lean 4 proof (ordered-map lemmas, invariant preservation over batch operations) + regenerated fact + differential correspondence with recomputed-batch oracle",
+    "design_ref": "DESIGN.md section 6 C17",
 }
